@@ -257,6 +257,20 @@ def copy_independence(ctx):
             if diff:
                 ctx.violate("copy-not-independent:%s-mutation-visible:%s" % (target, ",".join(diff)),
                             {"site": "Config.copy", "mutated": target, "mutations": [n for n, _ in combo]}, {})
+    # two Configs built independently (and the shared DEFAULT) share nothing either
+    for name, fn in muts:
+        a, b = cm.Config(), cm.Config()
+        sb, sd = guards.config_snapshot(b), guards.config_snapshot(cm.DEFAULT)
+        fn(a)
+        a.classes.add(dict, "OnlyOnA")
+        a.serialize_handlers[frozenset] = repr
+        ctx.case(("fresh-configs", name))
+        ctx.count("judged:fresh-config-independence")
+        for label, before, obj in (("other-Config", sb, b), ("DEFAULT", sd, cm.DEFAULT)):
+            diff = guards.snapshot_diff(before, guards.config_snapshot(obj))
+            if diff:
+                ctx.violate("independently-built-Configs-share-state:%s:%s" % (label, ",".join(diff)),
+                            {"site": "Config.copy", "mutation": name}, {})
     ctx.exhaustive["single and pairwise Config mutations on copy and on original"] = True
     ctx.cell("Config.copy")
 
